@@ -165,8 +165,8 @@ L2NOTE = ("L2 is strictly modular: the hash API is replaced by its contract (stu
           "lengths) and complete in values (all bytes symbolic, every H); the scalar state machines are unbounded via loop contracts. ")
 PROPS["C12"] = {
     "level": "proof",
-    "quick": ["hmac.setkey.u", "hmac.finalize.u"] + [n for n in JOBS if n.startswith("hmac.rfc2104.grid.")] + ["hash.update.grid", "hash.init", "hash.finalize"],
-    "thorough": ["hmac.setkey.u", "hmac.finalize.u"] + [n for n in JOBS if n.startswith("hmac.rfc2104.grid")] + ["hash.update.grid", "hash.init", "hash.finalize", "hash.update.u"],
+    "quick": ["hmac.setkey.u", "hmac.finalize.u", "hmac.oneshot.seq"] + [n for n in JOBS if n.startswith("hmac.rfc2104.grid.")] + ["hash.update.grid", "hash.init", "hash.finalize"],
+    "thorough": ["hmac.setkey.u", "hmac.finalize.u", "hmac.oneshot.seq"] + [n for n in JOBS if n.startswith("hmac.rfc2104.grid")] + ["hash.update.grid", "hash.init", "hash.finalize", "hash.update.u"],
     "campaign": native.lib_campaign("hmac"),
     "text": "UNBOUNDED in the key length: hmac_init / hmac_finalize protocol contracts for every keylen (inner block K0 xor ipad, outer block K0 xor opad, inner digest fed to the outer hash, keys > 64 hashed whole once); hmac_update is a call-through to hash_update (any chunking: C11). Value level: real tinyjambu-hmac.c (one-shot, and init/update/reinit/update/update/finalize) over the hash API's contract == RFC 2104 (block 64, keys > 64 hashed first, key = 64 used as is, empty key) over the same arbitrary hash function H, on a grid of key/message lengths with all bytes symbolic; hmac_update is a call-through to hash_update, so any chunking of the message is covered by C11's unbounded update contract.",
     "note": L2NOTE + "Quick grid: key lengths {0,1,31,32,33,63,64,65,66,80,129} x message lengths {0,17} and {20,64,65} x {1,16,33,40}; thorough: every key length 0..130 and every message length 0..48. For keylen > 64 the code makes one hash_update(key, keylen) whatever the length, so longer keys differ only inside the hash.",
@@ -175,9 +175,9 @@ PROPS["C12"] = {
 }
 PROPS["C13"] = {
     "level": "proof",
-    "quick": ["hkdf.expand.sm", "hkdf.oneshot.cap"] + [n for n in JOBS if n.startswith(("hkdf.step.grid.", "hkdf.extract.grid."))],
+    "quick": ["hkdf.expand.sm", "hkdf.oneshot.cap", "hkdf.extract.u"] + [n for n in JOBS if n.startswith(("hkdf.step.grid.", "hkdf.extract.grid."))],
     "campaign": native.lib_campaign("hkdf"),
-    "text": "unbounded: hkdf_expand state machine from an arbitrary valid (counter, posn) for every outlen (loop contract): -1 iff the request passes byte 8160, served bytes advance by exactly outlen capped at 8160, zero fill beyond, one HMAC per new block, counter wrap 255 -> 0 terminal; one-shot: refuses exactly outlen > 8160 and then writes nothing / derives nothing, else extract + one expand. Bounded: expand step == RFC 5869 recurrence from an abstract state (PRK, T(n-1), n, posn) and extract == HMAC(salt or 32 zeros, key) over an arbitrary hash function.",
+    "text": "unbounded: hkdf_expand state machine from an arbitrary valid (counter, posn) for every outlen (loop contract): -1 iff the request passes byte 8160, served bytes advance by exactly outlen capped at 8160, zero fill beyond, one HMAC per new block and, for every block number n and every infolen, the block protocol T(n) = HMAC(PRK, T(n-1) (n > 1) || info || n) stored as the current block, counter wrap 255 -> 0 terminal; extract for every keylen/saltlen = HMAC(salt, IKM) into PRK, counter 1; one-shot: refuses exactly outlen > 8160 and then writes nothing / derives nothing, else extract + one expand. Bounded: expand step == RFC 5869 recurrence from an abstract state (PRK, T(n-1), n, posn) and extract == HMAC(salt or 32 zeros, key) over an arbitrary hash function.",
     "note": L2NOTE + "Step grid: n in {1,2,3,7,200,254}, posn in {1,17,20,32}, outlen up to 70, infolen up to 20; extract grid: 6 (keylen, saltlen) pairs. In the state-machine proof the HMAC API is a frame-only stub and memcpy/memset into the unbounded output are modelled at one arbitrary ghost index (stubs/mem*_ghost.c).",
     "technique": "CBMC loop contract on the real hkdf_expand (ghost 'bytes served' view) + bounded functional step over contract stubs",
     "trusted": TRUSTED,
@@ -202,9 +202,9 @@ PRNG_FN = [n for n in JOBS if n.startswith(("prng.generate.fn", "prng.ops.fn"))]
 PRNG_BUDGET = ["prng.generate.budget", "prng.set_limit", "prng.feed.budget", "prng.reseed.budget", "prng.init.budget"]
 PROPS["C15"] = {
     "level": "proof",
-    "quick": PRNG_FN + ["prng.generate.budget"],
+    "quick": PRNG_FN + ["prng.generate.budget", "prng.feed.proto", "prng.reseed.proto", "prng.init.proto"],
     "campaign": native.lib_campaign("prng"),
-    "text": "per operation, from an arbitrary valid state (V, C symbolic), real tinyjambu-prng.c over the hash API's contract == documented Hash_DRBG: generate: each block = Hash(V), then V += Hash(3||V) + C + counter (256-bit big-endian add), counter + 1, automatic reseed exactly when counter > limit, entropy requests exactly there; feed: V' = Hash_df(1||V||data), C' = Hash_df(0||V'); reseed: V' = Hash_df(1||V||E), E = old V overwritten by the delivered bytes; instantiate: V = Hash_df(entropy||custom). Loop shape of generate for every size: prng.generate.budget (unbounded).",
+    "text": "per operation, from an arbitrary valid state (V, C symbolic), real tinyjambu-prng.c over the hash API's contract == documented Hash_DRBG: generate: each block = Hash(V), then V += Hash(3||V) + C + counter (256-bit big-endian add), counter + 1, automatic reseed exactly when counter > limit, entropy requests exactly there; feed: V' = Hash_df(1||V||data), C' = Hash_df(0||V'); reseed: V' = Hash_df(1||V||E), E = old V overwritten by the delivered bytes; instantiate: V = Hash_df(entropy||custom). Loop shape of generate for every size: prng.generate.budget (unbounded). Derivation PROTOCOL of feed / reseed / instantiate for every data length and every delivery count (prng.*.proto, unbounded): Hash_df header, marker, old V, data; C from the new V; counters.",
     "note": L2NOTE + "Sizes: generate {0,1,32,33,40,64,70} x (counter, limit, delivery) classes; feed {0,5,40}; deliveries {0,7,13,31,32,33,40}; custom {0,3,9}. Determinism over whole call histories is the representation-invariant meta-step (each operation verified from every valid state), stated, not checked by the tool.",
     "technique": "CBMC: real code over contract stubs of the callee API (abstract hash) vs SP 800-90A reference; loop contract for the generate loop",
     "trusted": TRUSTED,
@@ -220,9 +220,9 @@ PROPS["C16"] = {
 }
 PROPS["C17"] = {
     "level": "proof",
-    "quick": [n for n in JOBS if n.startswith("prng.ops.fn")] + ["prng.reseed.budget", "prng.init.budget"],
+    "quick": [n for n in JOBS if n.startswith("prng.ops.fn")] + ["prng.reseed.budget", "prng.init.budget", "prng.reseed.proto", "prng.init.proto"],
     "campaign": native.lib_campaign("prng"),
-    "text": "init_user / reseed return 1 exactly when the source delivered 32 bytes (deliveries 0, 7, 13, 31, 32, 33, 40 and an arbitrary symbolic count in the budget jobs); after a short delivery the state is the specified function of the old state and the delivered bytes and valid(state) holds, so every later operation's contract applies; init_user(NULL callback) stores the system source, equals plain init state-for-state, returns the source's status, and later reseeds call the system source (no NULL call).",
+    "text": "init_user / reseed return 1 exactly when the source delivered 32 bytes - for EVERY delivery count (prng.reseed.proto / prng.init.proto, all of size_t) and on the value grids (0, 7, 13, 31, 32, 33, 40); after a short delivery the state is the specified function of the old state and the delivered bytes and valid(state) holds, so every later operation's contract applies; init_user(NULL callback) stores the system source, equals plain init state-for-state, returns the source's status, and later reseeds call the system source (no NULL call).",
     "note": "on the pinned tree init_user called through the NULL argument (finding F1, fixed by a 'fix:' commit). 'Not constant output' is covered as 'output is the specified function of a state that depends on the old state'; entropy quality is not a contract matter. " + L2NOTE,
     "technique": "CBMC: real code over contract stubs (scripted entropy callback / system source) vs reference",
     "trusted": TRUSTED,
@@ -253,7 +253,7 @@ C06_JOBS = (UTIL + LEAF + names("aead", ["enc", "dec"], ["grid"]) + names("siv",
             + names("siv", ["dec"], ["short"]) + HASH_Q + ["hkdf.expand.sm", "hkdf.oneshot.cap", "pbkdf2.shape.blocks.c0", "pbkdf2.shape.blocks.c1",
                "pbkdf2.shape.chain", "prng.generate.budget", "prng.set_limit", "prng.feed.budget", "prng.reseed.budget", "prng.init.budget",
                "clean.exact", "clean.arena", "free.hmac", "free.hkdf", "free.prng", "trng.getrandom", "trng.getentropy", "trng.syscall",
-               "hmac.setkey.u", "hmac.finalize.u", "hmac.rfc2104.grid.0", "hmac.rfc2104.grid.5", "hkdf.step.grid.4", "hkdf.extract.grid.0", "pbkdf2.grid.1", "prng.ops.fn.0", "prng.generate.fn.4"])
+               "hmac.setkey.u", "hmac.finalize.u", "hmac.rfc2104.grid.0", "hmac.rfc2104.grid.5", "hkdf.step.grid.4", "hkdf.extract.grid.0", "pbkdf2.grid.1", "prng.ops.fn.0", "prng.generate.fn.4", "prng.feed.proto", "prng.reseed.proto", "prng.init.proto", "hkdf.extract.u"])
 PROPS["C06"] = {
     "level": "proof",
     "quick": C06_JOBS,
